@@ -8,6 +8,9 @@ THEMES = {
     "": "",
     "threshold": " ADDITIONAL CONSTRAINT: the defect must NOT be observable on small inputs (strings of at most 16 bytes, containers of at most 6 elements, nesting depth at most 4, numbers of at most 8 characters): it must only manifest beyond some internal size threshold (inline-to-heap spill, hash-table growth, long arrays, wide documents, narrow counters, block-wise processing).",
     "path": " ADDITIONAL CONSTRAINT: the defect must NOT be on the main, most-travelled code path. Put it in a rarely-used entry point, constructor, conversion, trait implementation or branch through which the property is still observable (for example an alternative way of building or obtaining the same value, a conversion impl, a borrowed-vs-owned variant, an iterator adaptor or its reverse / size_hint / nth side, a mutable accessor, an uncommon serde data-model method, an alternate formatting flag, an uncommon but legal input form) so that a harness exercising only the obvious functions would not see it.",
+    "errorpath": " ADDITIONAL CONSTRAINT: the defect must manifest only on a FAILURE PATH: when an operation fails, is rejected, finds nothing, or returns an error / None / a duplicate report - the error's content or position is wrong, or the state left behind after the failure is wrong, or a later call after a failure misbehaves. Successful operations on valid data must behave exactly as before.",
+    "combo": " ADDITIONAL CONSTRAINT: the defect must need a COMBINATION of two independent conditions, each of which alone is harmless (two option fields set together, an option together with a feature of the input, two features of the input in the same document or value, two different operations applied to the same object): with either condition alone everything must behave exactly as before.",
+    "boundary": " ADDITIONAL CONSTRAINT: the defect must manifest only AT A BOUNDARY VALUE and be correct one step on either side of it: a Unicode boundary (U+007F/U+0080, U+07FF/U+0800, U+D7FF/U+E000, U+FFFF/U+10000, U+10FFFF), an integer limit (i64/u64/i32/u16/u8 minimum or maximum, 2^53), a decimal threshold (1e21, 1e-7, a tie between two doubles, the largest/smallest finite or subnormal double) or a counter limit (255/256, 65535/65536).",
     "history": " ADDITIONAL CONSTRAINT: the defect must be HISTORY-DEPENDENT: it must not be observable by a single call on fresh data in a fresh process. It needs earlier calls or operations in the same thread, or on the same object, to have happened first (state left behind by an earlier call or an earlier error, a reused buffer or cache, a clone sharing structure, an iterator that was advanced from the other end first, an operation that is wrong only when it follows a particular other operation, and so on).",
 }
 extra = THEMES[theme]
